@@ -19,9 +19,14 @@ META = dict(
     evaluations_counter="cases",
     min={"v2_shapes": 100, "v1_shapes": 100, "permutation_slots_recovered": 100_000, "equivalence_weights": 100, "synthetic_triples": 20,
          "conversions_back": 100, "reference_identity_v2": 100},
-    anchors=["tensor/qbits/awq/packed.py:pack_v2", "tensor/qbits/awq/packed.py:unpack_v2", "tensor/qbits/awq/packed.py:pack",
-             "tensor/qbits/awq/packed.py:unpack", "tensor/qbits/awq/qbits.py:AWQBitsTensor.__init__",
-             "tensor/qbits/awq/qbits.py:AWQBitsTensor.qbits_tensor", "tensor/qbits/awq/qbits.py:AWQBitsDequantizer.forward"],
+    anchors=["tensor/qbits/awq/packed.py:pack_v2",
+             "tensor/qbits/awq/packed.py:unpack_v2",
+             "tensor/qbits/awq/packed.py:pack",
+             "tensor/qbits/awq/packed.py:unpack",
+             "tensor/qbits/awq/qbits.py:AWQBitsTensor.__init__",
+             "tensor/qbits/awq/qbits.py:AWQBitsTensor.qbits_tensor",
+             "tensor/qbits/awq/qbits.py:AWQBitsDequantizer.forward",
+             "tensor/qbits/awq/packed.py:reverse_awq_order"],
     rule="case = one admissible shape per packing (v2: rows multiple of 4 x columns multiple of 64; v1 with and without "
          "reorder: columns multiple of 8), decided completely by position-tagged inputs (digit p of the base-16 position "
          "index in pass p) that recover which input position every output nibble carries: the map must be a bijection, "
